@@ -2,6 +2,7 @@ package consim
 
 import (
 	"fmt"
+	"strings"
 
 	cstypes "github.com/tendermint/tendermint/consensus/types"
 )
@@ -82,7 +83,17 @@ func (m *monitor) checkReplayedState(n *simNode) {
 		if rs.LockedBlock != nil {
 			h = fmt.Sprintf("%X", []byte(rs.LockedBlock.Hash()))
 		}
-		if rs.LockedRound != d.lockedR || h != d.lockedH {
+		claimed := false
+		for k := range m.claims {
+			if strings.HasPrefix(k, fmt.Sprintf("%d/%d/%d/%s/", n.idx, d.h, d.lockedR, d.lockedH)) {
+				claimed = true
+			}
+		}
+		if (rs.LockedRound != d.lockedR || h != d.lockedH) && claimed && d.lockedR >= 0 {
+			// known finding: the polka behind the lock needed a vote admitted through a peer's
+			// maj23 claim, which the WAL does not record
+			e.Fail("C15", "replay-lock-lost-maj23-claim-not-in-wal", "node %d restarted in %d/%d with lock (round %d, %.12s) but had (round %d, %.12s) when its WAL was last synced; a peer's +2/3 claim for that block had been accepted in round %d", n.idx, rs.Height, rs.Round, rs.LockedRound, h, d.lockedR, d.lockedH, d.lockedR)
+		} else if rs.LockedRound != d.lockedR || h != d.lockedH {
 			e.Fail("C15", "replay-lock-lost", "node %d restarted in %d/%d with lock (round %d, %.12s) but had (round %d, %.12s) when its WAL was last synced", n.idx, rs.Height, rs.Round, rs.LockedRound, h, d.lockedR, d.lockedH)
 		}
 	}
